@@ -555,9 +555,64 @@ func (d *Driver) FamUnmarshal(nRandom int, everyNth int) {
 			enc := d.S.Encode(t, am, o)
 			d.unmarshalOne(ti, enc, true, fmt.Sprintf("random-%d/%s%s", i, vo.name, splitTag(split)), true)
 		}
+		// every map field with the four entry shapes a conforming writer may produce, whatever the seed: the empty entry, key only,
+		// value only and value before key (an entry that omits a message value is an empty message, and must marshal again)
+		for _, me := range d.S.mapEdgeInputs(t) {
+			d.unmarshalOne(ti, me.b, true, me.lbl, true)
+		}
 		// the empty input
 		d.unmarshalOne(ti, nil, true, "empty-input", true)
 	}
+}
+
+type labelled struct {
+	lbl string
+	b   []byte
+}
+
+func sampleScalar(kind string) ([]byte, bool) {
+	switch kind {
+	case "bool":
+		return []byte{1}, true
+	case "int32", "int64", "uint32", "uint64", "sint32", "sint64":
+		return []byte{5}, true
+	case "fixed32", "sfixed32", "float":
+		return []byte{0, 0, 0x80, 0x3f}, true
+	case "fixed64", "sfixed64", "double":
+		return []byte{0, 0, 0, 0, 0, 0, 0xf0, 0x3f}, true
+	case "string", "bytes":
+		return []byte{1, 'k'}, true
+	case "message":
+		return []byte{0}, true
+	}
+	return nil, false // enum: the declared numbers are not known here
+}
+
+func (s Schema) mapEdgeInputs(t string) []labelled {
+	var out []labelled
+	for _, fd := range s.must(t) {
+		if fd.C != "map" {
+			continue
+		}
+		kv, _ := sampleScalar(fd.Mk)
+		kb := protowire.AppendTag(nil, 1, wtOfKind(fd.Mk))
+		kb = append(kb, kv...)
+		shapes := []labelled{{"empty", nil}, {"keyonly", kb}}
+		if vv, ok := sampleScalar(fd.Mv); ok {
+			vb := protowire.AppendTag(nil, 2, wtOfKind(fd.Mv))
+			vb = append(vb, vv...)
+			shapes = append(shapes, labelled{"valueonly", vb}, labelled{"valuefirst", append(append([]byte{}, vb...), kb...)},
+				labelled{"twice", append(append(append([]byte{}, kb...), vb...), kb...)})
+		}
+		for _, sh := range shapes {
+			b := protowire.AppendTag(nil, protowire.Number(fd.N), protowire.BytesType)
+			b = protowire.AppendBytes(b, sh.b)
+			// two entries, so that a decoder reading past the end of the first one meets a second
+			b = append(b, b...)
+			out = append(out, labelled{fmt.Sprintf("mapedge-%d/%s", fd.N, sh.lbl), b})
+		}
+	}
+	return out
 }
 
 func splitTag(b bool) string {
